@@ -72,9 +72,28 @@ func Gen(r *rand.Rand, drivers []evt.Driver, pf Profile) *Program {
 		c.PanicHandler = r.IntN(3) != 0
 	}
 	c.PHBySetter = r.IntN(3) == 0
+	if pf.Panics {
+		if c.PanicHandler {
+			c.PHRepublish = r.IntN(4) == 0
+		} else {
+			c.PHNil = r.IntN(2) == 0
+		}
+	}
 	if pf.Hooks {
 		c.BeforeLegacy, c.BeforeCtx, c.AfterLegacy, c.AfterCtx = r.IntN(2) == 0, r.IntN(2) == 0, r.IntN(2) == 0, r.IntN(2) == 0
 		c.HooksSetter = r.IntN(3) == 0
+		if r.IntN(4) == 0 {
+			// one of the installed hooks publishes a nested event itself
+			var on []int
+			for i, b := range []bool{c.BeforeLegacy, c.BeforeCtx, c.AfterLegacy, c.AfterCtx} {
+				if b {
+					on = append(on, i+1)
+				}
+			}
+			if len(on) > 0 {
+				c.HookPublish = on[r.IntN(len(on))]
+			}
+		}
 	}
 	if pf.Obs {
 		c.Obs = true
